@@ -164,19 +164,18 @@ def run(chk):
         n = rnd.randrange(0, 40)
         add([rnd.choice(ALPHA) if rnd.random() < 0.3 else rnd.getrandbits(16) for _ in range(n)], "sweep", "random")
     # (c) methods of shipped DEX files through the real ClassManager, + mutations
-    files = sorted(glob.glob("/repo/tests/data/APK/*.dex"))
-    if quick:
-        files = [f for f in files if os.path.getsize(f) < 200000][:3]
+    from ..corpus import sample_methods, shipped_dex
+    files = shipped_dex(quick)
     n_methods = 0
     for f in files:
         d = dex.DEX(open(f, "rb").read())
-        for m in d.get_encoded_methods():
+        for m in sample_methods(d.get_encoded_methods(), quick, rnd, 400, 100000):
             code = m.get_code()
             if code is None:
                 continue
             raw = bytes(code.get_bc().get_insn())
             units = list(struct.unpack("<%dH" % (len(raw) // 2), raw[:len(raw) // 2 * 2]))
-            if len(units) > 3000 or (quick and n_methods >= 400):
+            if len(units) > 3000 or (quick and n_methods >= 600):
                 continue
             n_methods += 1
             _, _, ev = sweep(dex, d.get_class_manager(), units)
